@@ -480,6 +480,7 @@ func stringOrigins(v ssa.Value) []ssa.Value {
 	var leaves []ssa.Value
 	var rec func(v ssa.Value)
 	depth := 0
+	var ctx []*ssa.Call // calls being descended into (innermost last)
 	// descend: the value is result idx of a call to a slice-returning helper of package core whose
 	// body is available: its origins are the origins of what the helper returns (a block extracted
 	// into a helper keeps its origins).  Accessors of Metadata stay leaves: they are the roots.
@@ -499,11 +500,13 @@ func stringOrigins(v ssa.Value) []ssa.Value {
 			return false
 		}
 		depth++
+		ctx = append(ctx, call)
 		an.Instrs(f, func(in ssa.Instruction) {
 			if r, ok := in.(*ssa.Return); ok && idx < len(r.Results) {
 				rec(an.RetVal(r, idx))
 			}
 		})
+		ctx = ctx[:len(ctx)-1]
 		depth--
 		return true
 	}
@@ -513,6 +516,22 @@ func stringOrigins(v ssa.Value) []ssa.Value {
 		}
 		seen[v] = true
 		switch x := v.(type) {
+		case *ssa.Parameter:
+			// a parameter of a helper that was descended into: continue with the actual argument
+			for i := len(ctx) - 1; i >= 0; i-- {
+				if f := ctx[i].Call.StaticCallee(); f == x.Parent() {
+					for j, prm := range f.Params {
+						if prm == x && j < len(ctx[i].Call.Args) {
+							saved := ctx
+							ctx = ctx[:i]
+							rec(ctx0(saved, i).Call.Args[j])
+							ctx = saved
+							return
+						}
+					}
+				}
+			}
+			leaves = append(leaves, v)
 		case *ssa.Phi:
 			for _, e := range x.Edges {
 				rec(e)
@@ -1007,3 +1026,5 @@ func ruleV8(c *an.Ctx) {
 	c.Check("V8", "empty-path-is-whole-map@(LazyArgumentMap).jsonPath", fn.Pos(), inFn || (callersOK && nCalls > 0),
 		fmt.Sprintf("whole-call references keep files alive under the empty output id; jsonPath must return the whole map for the empty path (handled in the function: %v) or every one of its %d call sites must exclude the empty path (%v); otherwise such an argument is judged to name no files and the producer's files are removed while still needed", inFn, nCalls, callersOK))
 }
+
+func ctx0(ctx []*ssa.Call, i int) *ssa.Call { return ctx[i] }
